@@ -104,8 +104,11 @@ def close(got, want, mask):
     return bool(numpy.allclose(got[mask], want[mask], rtol=1e-9, atol=1e-11))
 
 
+GLYPH = {'DELTA': '\u03b4'}       # the model's token for the Greek dirac symbol of version 1
+
+
 def text(case):
-    return ''.join(case['t'])
+    return ''.join(GLYPH.get(t, t) for t in case['t'])
 
 
 STRUCT = ('sum', 'frac', 'term', 'pow', 'call', 'scope', 'jump', 'mean')
@@ -243,11 +246,16 @@ class Replayer:
         ops = set(case['ops'])
         if ops & GEN_FUNCS:
             return False            # generated axes: v1 infers their length, another syntax
-        if '$' in case['t']:
-            return False            # `$` is the dirac of v1
+        t = case['t']
+        if '$' in t and case['ok1'] == 'same':
+            return False            # `$` as a (refused) index symbol of v2: it is the dirac of v1
+        if any(x in self.world.funcs and t[p + 1:p + 2] == ['_'] for p, x in enumerate(t)):
+            return False            # f_i(...): v1 passes `generates` to the function, the parser does not decide
         return True
 
     def v1(self, case):
+        if case['ok1'] != 'same':      # dirac / indexed numbers: the version 1 reading of the model
+            case = dict(case, ok=case['ok1'], why=case['why1'] or case['why'], fr=case['fr1'], arr=case['arr1'], rev=case['rev1'], key_ok=case['ok'])
         s = text(case)
         ns = self.ns1
 
